@@ -407,6 +407,11 @@ func (ex *Exec) shape() string {
 func (ex *Exec) reportViolation(kind, label, msg string, haveModel bool) {
 	v := Violation{Harness: ex.harness, Label: label, Kind: kind, Msg: msg, Shape: ex.shape()}
 	var model map[string]uint64
+	if haveModel && (kind == "deadlock" || kind == "nonterm") {
+		// these are raised where the execution stands, not after a query: the solver's last answer may belong to a
+		// popped scope, so the model is taken from a fresh check of the path condition
+		haveModel = ex.sol.CheckSat() == Sat
+	}
 	if haveModel {
 		var vars []*Term
 		for _, in := range ex.inputs {
